@@ -209,7 +209,7 @@ axiom('SIGP', 'DEF-SIGP',
       "(not ((md is not None and md_nonempty(md)) and len(md_certs(md, s)) > 0) and not ou "
       " and k < len(inst_certs(item)) and XS_OK(d, nn, i, tmpfile(pem(inst_certs(item)[k])))), "
       "0, len(md_certs(md, s)) + len(inst_certs(item))), SIGP(md, ou, d, i, s, item, nn)), "
-      "['Val', 'Bool', 'Val', 'Val', 'Val', 'Val', 'Val'])")
+      "['Val', 'Bool', 'Val', 'Val', 'Val', 'Val', 'Val'])", reveal_in=['SecurityContext._check_signature'])
 
 contract(SC + '.check_signature',
          types={'item': "Inst('saml2_tophat:SamlBase')", 'node_name': 'Str', 'origdoc': 'Union(Str, Bytes)', 'id_attr': 'Str',
